@@ -42,7 +42,11 @@ class StubSession:
         self.transport = None
         sink.append(self)
 
+    open_raises = False        # (class level: set by a scenario in which the session's onOpen fails)
+
     def onOpen(self, transport):
+        if StubSession.open_raises:
+            raise RuntimeError("onOpen raised")
         self.opens += 1
         self.transport = transport
 
@@ -51,6 +55,12 @@ class StubSession:
             raise ProtocolError("out of phase")
         if self.raise_on == "internal":
             raise RuntimeError("session code raised")
+        if self.raise_on == "payload":
+            from autobahn.exception import PayloadExceededError
+            raise PayloadExceededError("a reply written by session code was too large")
+        if self.raise_on == "ser":
+            from autobahn.wamp.exception import SerializationError
+            raise SerializationError("a reply written by session code could not be serialized")
         self.msgs.append(msg)
 
     def onClose(self, wasClean):
